@@ -26,7 +26,7 @@ caught = sum(1 for s in agent if by[s])
 f = '/verif/DESIGN.md'
 s = open(f).read()
 m = re.search(r"Of the \d+ (agent-written changes|seeded changes that are not reverse patches)[^\n]*", s)
-sent = (f"Of the {len(agent)} seeded changes that are not reverse patches {caught} are caught by at least one check and {own} by the check of the "
+sent = (f"Of the {len(agent)} seeded changes that are not reverse patches ({len(agent)-1} by agents, 1 by hand) {caught} are caught by at least one check and {own} by the check of the "
         f"property they were written against; all {len(regress)} reverse patches of the repairs are caught. Not caught by any check: "
         f"{', '.join(unc) if unc else 'none'}:")
 s = s[:m.start()] + sent + s[m.end():]
